@@ -14,7 +14,7 @@ from .. import seams
 from ..compile import World
 from ..ctx import CTX, RunTooBig
 from ..history import History, canon, canon_outcome, digest
-from ..rng import Streams, chance, pick, weighted
+from ..rng import Streams, chance, pick, weighted, steps
 from ..sim import apply_op, form_of, build_sim, locations, readable, stack_state
 from ..world import gen_inputs, gen_request, gen_situation, gen_value, gen_world, wide_knob
 from . import Result
@@ -58,7 +58,7 @@ def generate(seed: int, tier: str) -> dict:
         env["mem"] = pick(kr, ["high", "high", "flap", "edge", "low"])
         env["mem_seed"] = kr.randrange(1 << 30)
     orr = st["ops"]
-    n_ops = orr.randint(6, 12 if tier == "quick" else 20)
+    n_ops = steps(orr, 6, 12 if tier == "quick" else 20)
     ops = []
     alive = ["O"]
     clones = 0
